@@ -28,7 +28,10 @@ for it in range(N):
     if pos0 != 0.0: a.transact(pos0); s.update(idx[0])
     unit = price * mult
     mode = rs.rand()
-    if mode < 0.45:
+    if mode < 0.06:
+        # very many units (a cheap stock and a large book): size-proportional costs leave the first step of the search thousands of units short
+        amount = float(rs.choice([1, 1, -1]) * rs.uniform(1e5, 5e7) * unit)
+    elif mode < 0.45:
         amount = float(rs.choice([1, -1]) * rs.uniform(0.2, 3000) * unit)
     elif mode < 0.75:
         # less than (about) one unit: nothing, or exactly one unit, is affordable
@@ -43,6 +46,7 @@ for it in range(N):
         q_res = float(rs.randint(1, 3000) * rs.choice([1, -1]))
         f_res = float(a.outlay(q_res)[0])
         amount = f_res - float(rs.randint(1, 3)) * unit * rs.choice([1, -1]) - unit * 10.0 ** -rs.randint(3, 10) * rs.choice([1, -1])
+    if mode < 0.06: s.adjust(100.0 * abs(amount)); s.update(idx[0])        # a book that can pay for it (otherwise the costs alone bankrupt the strategy)
     cap0, p0 = s.capital, a.position
     evals += 1; distinct.add((fk, intpos, mult, spread > 0, pos0 > 0, pos0 < 0, amount > 0))
     try:
@@ -76,5 +80,5 @@ for it in range(N):
         if abs(spent - amount) > tol: bad("fractional-trade-does-not-spend-the-amount", spent=spent, amount=amount, q=q)
     if it < 2: samples.append(dict(price=price, multiplier=mult, spread=spread, fee=fk, integer=intpos, position=p0, amount=amount, traded=q, spent=spent))
 print("JSON:" + json.dumps(dict(evaluations=evals, distinct=len(distinct), failures=sorted(fails, key=lambda f: "finding" in f)[:PARAMS.get("maxfail", 5)], samples=samples,
-      rule="random price (0-4 decimals), multiplier, spread, 6 fee shapes (none, per unit small/large, proportional small/large, minimum ticket), prior long/short/flat position, signed amount (ordinary sizes, below one unit, exactly the full cost of a whole quantity, and sizes whose costs add up to about one more unit), whole or fractional units; allocate must not raise and must respect the budget; distinct = distinct (fee, mode, multiplier, spread?, position sign, amount sign)",
+      rule="random price (0-4 decimals), multiplier, spread, 6 fee shapes (none, per unit small/large, proportional small/large, minimum ticket), prior long/short/flat position, signed amount (ordinary sizes, up to 5e7 units, below one unit, exactly the full cost of a whole quantity, and sizes whose costs add up to about one more unit), whole or fractional units; allocate must not raise and must respect the budget; distinct = distinct (fee, mode, multiplier, spread?, position sign, amount sign)",
       bound="%d random allocations on the direct API" % N)))
